@@ -4,8 +4,12 @@ from props import common, mix, disp
 
 THM = "NextestModel.Thm.C17"
 GEN = []
-TRUSTED = ["model: Model/Dispatcher (RunStats bookkeeping); quick-junit's XML writing and escaping are third-party and not modelled"]
-ASSUMPTIONS = ["PARTIAL: the JUnit aggregation (one testcase per finished test, reruns, stored output, XML character validity) is not yet modelled or checked here; this check covers the counters (passed + failed + exec-failed + timed-out = finished, sub-counts) and that every TestFinished event carries the run's statistics and the test's full attempt list"]
+CHECK_MODULES = ["NextestModel.Lemmas.Junit", "NextestModel.Model.Junit"]
+TRUSTED = ["model: Model/Dispatcher (RunStats bookkeeping) and Model/Junit (MetadataJunit::write_event: suites, cases, status, reruns, store rule; quick-junit's add_test_case counters), both corresponded in-process",
+           "guarded hooks ExecutionStatuses::verif_new, RunStats::verif_on_test_finished / verif_on_setup_script_finished, config::VerifScriptId (constructors / callers of crate-private functions)",
+           "quick-junit's XML serialisation and character filtering are third-party: exercised (the report is parsed back with quick-xml in-process and with expat end-to-end), not modelled"]
+ASSUMPTIONS = ["every attempt of a finished test before its last one failed (the executor's attempt loop stops at the first success): WFAttempts; the aggregator's `unreachable!` is outside it (junit_no_panic)",
+               "XML character validity of stored output is checked end-to-end on a fixed hostile output (family mix), not proved"]
 
 
 def parse_stats(s):
@@ -49,7 +53,62 @@ def run_p(seed, tier, replay=None):
     }
 
 
+def strip_types(canon):
+    """drop the `type` attribute texts (not part of the property) from a canonical report"""
+    import re
+    canon = re.sub(r"/(f|e):[0-9a-f-]+/", r"/\1/", canon)
+    return re.sub(r"(ff|fe|rf|re)~[0-9a-f-]+~", r"\1~", canon)
+
+
+def describe_junit(req, impl, model):
+    def uh(x):
+        try: return bytes.fromhex(x).decode("utf-8", "replace") if x not in ("-", ".") else ""
+        except ValueError: return x
+    evs = []
+    for e in req.split(" ")[1].split(";"):
+        f = e.split(":")
+        if f[0] == "T": evs.append(f"test {uh(f[1])} {uh(f[2])!r} attempts {f[3]} store-success/failure={f[4]}")
+        elif f[0] == "S": evs.append(f"script {uh(f[1])} {f[2]} store={f[3]}")
+    ip, mp = impl.split(" ## "), model.split(" ## ")
+    parts = []
+    if len(ip) != 3 or len(mp) != 3: return f"JUnit report unreadable: {impl[:200]}"
+    if strip_types(ip[0]) != strip_types(mp[0]):
+        isu, msu = ip[0].split("@")[0].split("|"), mp[0].split("@")[0].split("|")
+        for a, b in zip(isu + [""] * len(msu), msu + [""] * len(isu)):
+            if strip_types(a) != strip_types(b):
+                parts.append(f"suite in the report: {a[:300]!r}; the events demand: {b[:300]!r} (fields: kind:id:tests:failures:errors:cases; case = name/status/attempt carried/output stored/reruns tag~type~attempt~stored)"); break
+        if not parts: parts.append(f"report totals {ip[0].split('@')[-1]} vs {mp[0].split('@')[-1]}")
+    if ip[1] != mp[1]: parts.append(f"summary line numbers (run:passed:flaky:leaky:failed:exec-failed:timed-out) {ip[1]} but the per-test results give {mp[1]}")
+    if ip[2] != mp[2]: parts.append(f"run statistics {ip[2]} but the per-test results give {mp[2]}")
+    return "JUnit report / summary / statistics disagree with the finished tests: " + "; ".join(parts) + " — events: " + " | ".join(evs)[:600]
+
+
+def run_junit(seed, tier, replay=None):
+    n = 300 if tier == "quick" else 20000
+    r = common.run_streams([("p_junit", [seed, n, vlib.BUILD + "/junit-tmp"])])
+    items = [([b, args, idx], req, impl) for (b, args, idx, req, impl) in r.cases]
+    mism, _ = common.compare(items, None)
+    violations, detail = [], []
+    for m in mism:
+        ip, mp = m["impl"].split(" ## "), m["model"].split(" ## ")
+        concrete = len(ip) != 3 or len(mp) != 3 or strip_types(ip[0]) != strip_types(mp[0]) or ip[1:] != mp[1:]
+        if concrete:
+            violations.append({"what": describe_junit(m["req"], m["impl"], m["model"]), "payload": {"stream": m["origin"][:2], "line_index": m["origin"][2], "request": m["req"], "impl": m["impl"], "spec": m["model"]}, "kind": "junit-model"})
+        else:
+            detail.append({"stream": m["origin"][:2], "line_index": m["origin"][2], "request": m["req"], "impl": m["impl"], "model": m["model"], "note": "only the `type` attribute texts differ"})
+    nt = {q for _, q, _ in items if q.count("T:") + q.count("S:") >= 2}
+    return {"evaluations": len(items), "distinct_nontrivial": len(nt),
+            "rule": "p_junit: event lists (0-9 events: finished tests of 4 binaries with 1-4 attempts whose non-final attempts failed, finished setup scripts, other events; store-success/failure-output drawn per event) through the real Reporter; the JUnit file is parsed back (suites, counters, cases, status elements, reruns with the attempt each carries, stored output attributed by marker), the Summary line is read from the display reporter and RunStats folded by the real on_test_finished; all three compared with Model/Junit; non-trivial = at least two finished units",
+            "samples": [f"{q[:200]}  =>  {i[:200]}" for (_, q, i) in items[:3]], "traces": len(items), "dist": {"junit:" + k: v for k, v in r.dist.items()},
+            "violations": violations, "broken": r.broken, "impl_failures": r.impl_failures, "detail_mismatches": detail}
+
+
 def run(seed, tier, replay=None):
-    return mix.merge(run_p(seed, tier, replay), mix.check([mix.mon_junit], seed, tier))
+    a = run_p(seed, tier, replay); b = run_junit(seed, tier, replay)
+    for k in ("evaluations", "distinct_nontrivial", "traces"): a[k] += b[k]
+    a["rule"] += " || " + b["rule"]; a["samples"] += b["samples"]; a["dist"].update(b["dist"])
+    for k in ("violations", "broken", "impl_failures"): a[k] = a.get(k, []) + b.get(k, [])
+    a["detail_mismatches"] = a.get("detail_mismatches", []) + b["detail_mismatches"]
+    return mix.merge(a, mix.check([mix.mon_junit], seed, tier))
 
 KNOWN_MATCHERS = {}
